@@ -6,6 +6,8 @@ names coincide with ancestor names (C04/C05)."""
 import random
 
 KEYS = ['a', 'b', 'c', 'r']
+# keys that are attribute names of the node / builder classes, or contain path metacharacters (a single key is never a path)
+WEIRD_KEYS = ['stages', 'a.b', 'lr-steps', 'value', 'x[0]', 'delete', 'b.c']
 SCALARS = ['1', '2', '3', '0', 'x', 'y', "''", 'true', 'false', 'null', '1.5', '7']
 PRIO_TAGS = ['!force', '!weak']
 DEL_TAGS = ['!del', '!merge']
@@ -28,17 +30,18 @@ class Profile:
         self.dyn = []             # 'call','bind','required','xref'
         self.p_dyn = 0.0
         self.underscore = False
+        self.weird = 0.0          # probability that a key comes from WEIRD_KEYS
         self.meta = 0.0           # probability that a scalar carries !metadata{{...}} (user metadata, optionally a priority)
         self.__dict__.update(kw)
 
 
 PROFILES = {
-    'plain': Profile(),
-    'prio': Profile(p_tag=0.3, tags=PRIO_TAGS),
+    'plain': Profile(weird=0.06),
+    'prio': Profile(p_tag=0.3, tags=PRIO_TAGS, weird=0.05),
     'priomap': Profile(p_tag=0.3, tags=PRIO_TAGS, p_seq=0.0, p_map=0.55, meta=0.2, p_empty=0.05),
-    'del': Profile(p_tag=0.35, tags=PRIO_TAGS + DEL_TAGS + DEL_TAGS, p_remove=0.05),
-    'all': Profile(p_tag=0.35, tags=PRIO_TAGS + DEL_TAGS + ['!new', '!unsafe'], p_remove=0.04),
-    'notnew': Profile(p_tag=0.3, tags=PRIO_TAGS + DEL_TAGS + NEW_TAGS + NEW_TAGS, p_remove=0.03),
+    'del': Profile(p_tag=0.35, tags=PRIO_TAGS + DEL_TAGS + DEL_TAGS, p_remove=0.05, weird=0.05),
+    'all': Profile(p_tag=0.35, tags=PRIO_TAGS + DEL_TAGS + ['!new', '!unsafe'], p_remove=0.04, weird=0.05),
+    'notnew': Profile(p_tag=0.3, tags=PRIO_TAGS + DEL_TAGS + NEW_TAGS + NEW_TAGS, p_remove=0.03, weird=0.05),
     'notnewf': Profile(p_tag=0.3, tags=PRIO_TAGS + DEL_TAGS + NEW_TAGS + NEW_TAGS, dyn=['call', 'bind'], p_dyn=0.25, p_seq=0.3),
     'ops': Profile(p_tag=0.15, tags=PRIO_TAGS + DEL_TAGS, ops=['append', 'extend', 'prev', 'clear'], p_op=0.07, p_seq=0.4),
     'func': Profile(p_tag=0.25, tags=PRIO_TAGS + DEL_TAGS, dyn=['call', 'bind', 'callstr'], p_dyn=0.3),
@@ -55,6 +58,8 @@ def gen_key(rng, prof, used):
     for _ in range(10):
         if rng.random() < prof.p_intkey:
             k = rng.choice([0, 1, 2])
+        elif prof.weird and rng.random() < prof.weird:
+            k = rng.choice(WEIRD_KEYS)
         else:
             k = rng.choice(KEYS)
             if prof.underscore and rng.random() < 0.15:
